@@ -7,38 +7,49 @@ Import ListNotations.
 Open Scope N_scope.
 
 (* ---- text strings ---- *)
-(* a string body is a sequence of plain bytes (anything but '\' and ')') and escapes: a
-   backslash followed by ANY byte -- \\ \) \( \n \r \t, the first digit of an octal escape
-   \ddd (the other digits are plain bytes), a line continuation (backslash, newline) *)
+(* a string body is a sequence of plain bytes (anything but '\') and escapes: a backslash
+   followed by ANY byte -- \\ \) \( \n \r \t, the first digit of an octal escape \ddd (the other
+   digits are plain bytes), a line continuation (backslash, newline).  Unescaped parentheses
+   must be balanced (nested to any depth): balb. *)
 Inductive satom := APlain (c : N) | AEsc (c : N).
 Definition satom_ok (a : satom) : bool :=
-  match a with APlain c => negb (c =? 92) && negb (c =? 41) | AEsc _ => true end.
+  match a with APlain c => negb (c =? 92) | AEsc _ => true end.
 Fixpoint renderAtoms (l : list satom) : bytes :=
   match l with
   | [] => []
   | APlain c :: r => c :: renderAtoms r
   | AEsc c :: r => 92 :: c :: renderAtoms r
   end.
+(* from nesting depth d the unescaped parentheses never close more than was opened and end
+   at depth 0 *)
+Fixpoint balb (d : nat) (l : list satom) : bool :=
+  match l with
+  | [] => Nat.eqb d 0
+  | APlain c :: r =>
+      if c =? 40 then balb (S d) r
+      else if c =? 41 then match d with O => false | S d' => balb d' r end
+      else balb d r
+  | AEsc _ :: r => balb d r
+  end.
+Definition body_ok (l : list satom) : bool := forallb satom_ok l && balb 0 l.
 
-Lemma skipStr_atoms : forall atoms k rest,
-  forallb satom_ok atoms = true -> Nat.even k = true ->
-  skipStr k (renderAtoms atoms ++ 41 :: rest) = Some rest.
+Lemma fwd_atoms : forall atoms d rest,
+  forallb satom_ok atoms = true -> balb d atoms = true ->
+  fwdScan d (renderAtoms atoms ++ 41 :: rest) = Some rest.
 Proof.
-  induction atoms as [|a r IH]; intros k rest Hok Hk.
-  - simpl. rewrite Hk. reflexivity.
+  induction atoms as [|a r IH]; intros d rest Hok Hb.
+  - simpl in Hb. apply Nat.eqb_eq in Hb. subst. reflexivity.
   - simpl in Hok. apply andb_true_iff in Hok. destruct Hok as [Ha Hr].
-    assert (Nat.even (S k) = false) as Hs by (rewrite Nat.even_succ, <- Nat.negb_even, Hk; reflexivity).
-    assert (Nat.even (S (S k)) = true) as Hss by (simpl; exact Hk).
     destruct a as [c|c].
-    + simpl in Ha. apply andb_true_iff in Ha. destruct Ha as [H1 H2].
-      apply negb_true_iff in H1. apply negb_true_iff in H2.
-      change (skipStr k (c :: renderAtoms r ++ 41 :: rest) = Some rest).
-      cbn [skipStr]. rewrite H2, H1. apply IH; auto.
-    + change (skipStr k (92 :: c :: renderAtoms r ++ 41 :: rest) = Some rest).
-      change (skipStr (S k) (c :: renderAtoms r ++ 41 :: rest) = Some rest).
-      cbn [skipStr]. destruct (c =? 41) eqn:E41.
-      * rewrite Hs. apply IH; auto.
-      * destruct (c =? 92) eqn:E92; apply IH; auto.
+    + simpl in Ha. apply negb_true_iff in Ha.
+      change (renderAtoms (APlain c :: r) ++ 41 :: rest) with (c :: renderAtoms r ++ 41 :: rest).
+      cbn [fwdScan balb] in *. rewrite Ha.
+      destruct (c =? 40). apply IH; auto.
+      destruct (c =? 41).
+      * destruct d as [|d']. discriminate. apply IH; auto.
+      * apply IH; auto.
+    + change (renderAtoms (AEsc c :: r) ++ 41 :: rest) with (92 :: c :: renderAtoms r ++ 41 :: rest).
+      cbn [fwdScan balb] in *. change (92 =? 92) with true. cbv iota. apply IH; auto.
 Qed.
 
 (* ---- names ---- *)
@@ -108,18 +119,18 @@ Proof.
 Qed.
 
 (* ---- tokens of the grammar ---- *)
-Lemma ptn_str : forall f atoms L, forallb satom_ok atoms = true ->
+Lemma ptn_str : forall f atoms L, body_ok atoms = true ->
   positionToNext (S (S f)) (40 :: renderAtoms atoms ++ 41 :: L) = positionToNext (S f) L.
 Proof.
-  intros f atoms L H. cbn [positionToNext trimws].
+  intros f atoms L H. unfold body_ok in H. apply andb_true_iff in H. destruct H as [Hok Hb].
+  cbn [positionToNext trimws].
   change (isws 40) with false. cbv iota.
   change (40 =? 37) with false. change (40 =? 91) with false. change (40 =? 40) with true. cbv iota.
-  change (skipStr 0 (40 :: renderAtoms atoms ++ 41 :: L)) with (skipStr 0 (renderAtoms atoms ++ 41 :: L)).
-  rewrite (skipStr_atoms atoms 0%nat L H eq_refl). reflexivity.
+  unfold skipStr. cbn [tl]. rewrite (fwd_atoms atoms 0%nat L Hok Hb). reflexivity.
 Qed.
 
 (* " (" body ") Tj" followed by a space *)
-Lemma tok_str : forall atoms Y, forallb satom_ok atoms = true ->
+Lemma tok_str : forall atoms Y, body_ok atoms = true ->
   nextToken [] (32 :: 40 :: renderAtoms atoms ++ 41 :: 32 :: 84 :: 106 :: 32 :: Y) = (TOther [84; 106], 32 :: Y).
 Proof.
   intros atoms Y H. unfold nextToken. cbn [app length]. rewrite ptn_space.
@@ -181,7 +192,7 @@ Definition seg_ok (s : seg) : bool :=
   match s with
   | (str, u, n) =>
       name_ok n &&
-      (match str with Some atoms => forallb satom_ok atoms | None => true end) &&
+      (match str with Some atoms => body_ok atoms | None => true end) &&
       (match u with UColorSpace => negb (builtinCS n) | _ => true end)
   end.
 Fixpoint renderSegs (l : list seg) : bytes :=
@@ -340,10 +351,19 @@ Proof.
   pose proof (renderSegs_len segs). lia.
 Qed.
 
-(* nested balanced parentheses (legal in a PDF string) are not understood: the string ends at
-   the first ')' and the rest of it is read as operators.  "(x (y) /F9 z) Tj /F2 12 Tf":
-   /F2 is used and not reported. *)
+(* the two former defect witnesses (fixed by 896a0b77 + b5e38ac0) *)
+(* "(x (y) /F9 z) Tj /F2 12 Tf" : nested balanced parentheses *)
 Definition nested_content : bytes :=
   [40;120;32;40;121;41;32;47;70;57;32;122;41;32;84;106;32;47;70;50;32;49;50;32;84;102].
-Theorem nested_parens_refuted : used_names nested_content = SOk [].
+(* "(a) Tj /F2 12 Tf %)" : a ')' at depth 0 later in the content *)
+Definition runon_content : bytes := [40;97;41;32;84;106;32;47;70;50;32;49;50;32;84;102;32;37;41].
+Lemma former_witnesses :
+  used_names nested_content = SOk [(CFont, [70; 50])] /\
+  used_names runon_content = SOk [(CFont, [70; 50])].
+Proof. split; vm_compute; reflexivity. Qed.
+
+(* the fallback is still what decides an unbalanced string: "(a (b) Tj /F2 12 Tf" ends at the
+   first unescaped ')' *)
+Lemma unbalanced_fallback :
+  used_names [40;97;32;40;98;41;32;84;106;32;47;70;50;32;49;50;32;84;102] = SOk [(CFont, [70; 50])].
 Proof. vm_compute. reflexivity. Qed.
